@@ -360,7 +360,11 @@ func runC05(tr *Trace, sc *Script, rec *Recorder, scratch string) *Violation {
 			return Op{K: "time", A: []int64{ms}}, true
 		case 4:
 			// transient error or NotFound; stale views are not part of C05's quantifier (pointers only advance)
-			return Op{K: "rel", S: labels[r.Intn(len(labels))], A: []int64{int64(1 + r.Intn(2))}}, true
+			m := int64(1 + r.Intn(2))
+			if r.Bool(30) {
+				m = replyDeadline // request timeout: also a transient RPC failure
+			}
+			return Op{K: "rel", S: labels[r.Intn(len(labels))], A: []int64{m}}, true
 		default:
 			return Op{K: "procfail", A: []int64{int64(1 + r.Intn(2))}}, true
 		}
@@ -397,6 +401,9 @@ func runC05(tr *Trace, sc *Script, rec *Recorder, scratch string) *Violation {
 			}
 			if mode == replyStale {
 				mode = replyOK
+			}
+			if mode == replyDeadline && p.method != "HeaderByNumber" && p.method != "FilterLogs" {
+				mode = replyTransient
 			}
 			if mode != replyOK {
 				rec.Stats.Inc(fmt.Sprintf("rpc_fault_%d_%s", mode, p.method))
